@@ -8,6 +8,10 @@ def plan(tier, seed):
     if "C11" == "C11":
         for d in ("greedy", "sampling", "multistart_greedy", "multistart_sampling"):
             jobs.append(J(f"{d} n=3 B=2", "ll_job", decode_type=d, n=3, B=2))
+        # temperature != 1 (the step distribution must still be the normalised one) and steps flagged irrelevant through td["mask"]
+        jobs += [J("greedy n=3 B=2 temperature=2", "ll_job", decode_type="greedy", n=3, B=2, temperature=2.0), J("sampling n=3 B=2 temperature=0.5", "ll_job", decode_type="sampling", n=3, B=2, temperature=0.5),
+                 J("greedy n=3 B=2 flagged steps", "ll_job", decode_type="greedy", n=3, B=2, flagged=True), J("sampling n=3 B=2 flagged steps", "ll_job", decode_type="sampling", n=3, B=2, flagged=True),
+                 J("multistart_greedy n=3 B=2 flagged steps", "ll_job", decode_type="multistart_greedy", n=3, B=2, flagged=True)]
         if tier == "thorough":
             for d in ("greedy", "sampling", "multistart_greedy"):
                 jobs.append(J(f"{d} n=4 B=2", "ll_job", decode_type=d, n=4, B=2))
@@ -19,7 +23,7 @@ def plan(tier, seed):
         if tier == "thorough":
             jobs += [J("n=4 w=2 B=1", "beam_job", n=4, W=2, B=1), J("n=4 w=2 B=2", "beam_job", n=4, W=2, B=2), J("n=3 w=3 B=2 select_best", "beam_job", n=3, W=3, B=2, select_best=True)]
     return {"jobs": jobs, "level": "model_checking",
-            "bounds": "TSP n<=4, B<=3, beam width <=3 (n=4: width 2); abstract decoder (logits = uninterpreted function of the state shown), so the verdict holds for every network",
+            "bounds": "TSP n<=4, B<=3, temperatures 1 / 2 / 0.5, optional per-step relevance flags (symbolic), beam width <=3 (n=4: width 2); abstract decoder (logits = uninterpreted function of the state shown), so the verdict holds for every network",
             "outside": "beam width >=3 at n>=4 (symbolic top-k does not finish); other environments (variable-length episodes); the numerical content of real networks"}
 
 
